@@ -12,7 +12,15 @@ the positions and radii (exact rationals from the model, doubles of navis conver
 `Fraction(float)`, relative tolerance 1e-9), plus oracles on navis' output alone: anchors keep id and
 coordinates, new ids fresh and unique, node count, well-formed forest, every new node on the original
 cable, cable length not increased, soma / connectors / tags re-attached to a nearest new node
-(`c13.nearest`, ties accepted as a set)."""
+(`c13.nearest`, ties accepted as a set).
+
+Second pass: the as-written model `downsampleG` (`c13.dsg`: float factors, `preserve_nodes=None` vs list, soma list, the
+`factor <= 1` guard), soma on slab nodes / node id 0 as slab / ids not in the table / NeuronList inputs / array somas;
+resampling: the Lean checker `attachOKB` (`c13.attach`, sound by `Props.C13.attachCheck_sound`) on navis' re-attached
+soma + connectors + tags together, compared with the model `reattachG` when there is no tie, exact-tie inputs, numeric and
+categorical mapped columns (`c13.nearestidx`), every non-linear `method` with coincident nodes and `skip_errors` both ways,
+resolutions larger than every segment (= the contracted skeleton), unit strings ('1 micron' on nm / 8 nm / µm neurons),
+NeuronLists, two-step histories (downsample → resample → downsample with non-contiguous ids)."""
 import math, random, warnings
 from fractions import Fraction as Fr
 import numpy as np
@@ -98,47 +106,98 @@ def edge_len(a, b):
 # ------------------------------------------------------------------------------------------------
 # downsampling
 # ------------------------------------------------------------------------------------------------
-def case_ds(ctx, case, be=None):
-    x = make_neuron(case)
-    f, pres, how = case['f'], case['pres'], case.get('how', 'func')
-    fpy = float('inf') if f == 'inf' else f
-    pm0 = parent_map(x)
+def _factor(case):
+    """(python value handed to navis, rational string for the model, ceil as used by the walk / 'inf')"""
+    f = case['f']
+    if f == 'inf':
+        return float('inf'), 'inf', 'inf'
+    q = Fr(f)
+    ft = case.get('ftype', 'auto')
+    if ft == 'np.int64':
+        v = np.int64(int(q))
+    elif ft == 'np.float32':
+        v = np.float32(float(q))
+    elif ft == 'float' or q.denominator != 1:
+        v = float(q)
+    else:
+        v = int(q)
+    return v, frs(q), math.ceil(q)
+
+
+def case_ds(ctx, case, be=None, x=None):
+    x = make_neuron(case) if x is None else x
+    pres, how = case['pres'], case.get('how', 'func')
+    fpy, fq, fc = _factor(case)
+    f = case['f']
+    pm0, c0 = parent_map(x), coords_of(x)
     wire = G.wire_neuron(x)
     soma = [] if x.soma is None else [int(v) for v in np.atleast_1d(x.soma)]
     what = f"downsample(f={f}, preserve={case.get('presform', 'list')}, via={how}) [{be}]"
+    bad_factor = f != 'inf' and Fr(f) <= 1
     try:
         if how == 'simple':
             y = x.simple
             soma = []
         elif how == 'method':
             y = x.downsample(fpy, inplace=False, preserve_nodes=_pres_arg(case, pres))
+        elif how == 'method_default':          # TreeNeuron.downsample(): factor defaults to 5
+            y = x.downsample(inplace=False, preserve_nodes=_pres_arg(case, pres))
         elif how == 'inplace':
             y = x.copy()
             navis.downsample_neuron(y, fpy, inplace=True, preserve_nodes=_pres_arg(case, pres))
+        elif how == 'inplace_same':            # the very same object (warm caches of earlier steps)
+            navis.downsample_neuron(x, fpy, inplace=True, preserve_nodes=_pres_arg(case, pres))
+            y = x
+        elif how == 'list':                    # NeuronList in → NeuronList out, every member downsampled
+            other = make_neuron(dict(case, rows=case['rows2'], soma=None, connectors=None, tags=None, soma_none=True)) if case.get('rows2') else x.copy()
+            nl = navis.downsample_neuron(navis.NeuronList([x, other]), fpy, preserve_nodes=_pres_arg(case, pres))
+            ctx.oracle(isinstance(nl, navis.NeuronList) and len(nl) == 2, f'{what}: NeuronList in, {type(nl).__name__} of length {len(nl) if hasattr(nl, "__len__") else "?"} out', case)
+            y = nl[0]
         else:
             y = navis.downsample_neuron(x, fpy, preserve_nodes=_pres_arg(case, pres))
     except Exception as e:
+        if bad_factor and isinstance(e, ValueError):
+            ctx.corr('ERR:value', ctx.ask(f"c13.dsg {fq} none - | {wire}"), f'{what}: factor <= 1 is rejected', case)
+            ctx.count('ds_factor', '<=1 (ValueError)')
+            return
         ctx.oracle(False, f'{what} raised {type(e).__name__}: {str(e)[:100]}', case)
         return
-    ctx.count('ds_factor', f)
+    if bad_factor:
+        ctx.corr('accepted', 'ERR:value', f'{what}: a factor <= 1 must raise ValueError', case)
+        return
+    ctx.count('ds_factor', f if how != 'method_default' else 'default(5)')
     ctx.count('ds_how', how)
+    if how == 'method_default':
+        fq, fc = '5', 5
     mpres = sorted(set((pres or []) + soma))
-    model = ctx.ask(f"f.ops ds={f}={','.join(map(str, mpres))} | {wire}")
+    # (1) the as-written model: preserve_nodes None / list, soma list, rational factor
+    ptok = 'none' if (pres is None or how == 'simple') else (','.join(map(str, sorted(set(pres)))) or '-')
+    stok = ','.join(map(str, soma)) or '-'
+    out = ctx.ask(f"c13.dsg {fq} {ptok} {stok} | {wire}")
+    mg, _, mh = out.partition(' # ')
+    ctx.corr(G.topo_neuron(y), mg, f'{what}: node table vs the as-written Lean model `downsampleG`', case)
+    ctx.corr(mg, mh, f'{what}: as-written model vs `downsample` (theorem gen_downsample_is_model)', case)
+    # (2) the hand-written model through the shared op language (integer factor = ceil)
+    model = ctx.ask(f"f.ops ds={fc}={','.join(map(str, mpres))} | {wire}")
     ctx.corr(G.topo_neuron(y), model, f'{what}: node table vs Lean `downsample`', case)
     # property oracle on navis' own output (Lean checker)
     fix = sorted(set(topo_fix(pm0)) | (set(mpres) & set(pm0)))
     if len(pm0) <= 1:
         fix = sorted(pm0)
-    chk = ctx.ask(f"c13.dscheck {f} {','.join(map(str, fix))} | {wire} | {G.wire_neuron(y)}")
+    chk = ctx.ask(f"c13.dscheck {fc} {','.join(map(str, fix))} | {wire} | {G.wire_neuron(y)}")
     if chk != '1':
         pm1 = parent_map(y)
         miss = [i for i in fix if i not in pm1]
         det = f'fix points dropped: {miss}' if miss else 'a kept node is not linked to its nearest kept ancestor within the factor, or a row changed'
-        sig = None
-        ctx.oracle(False, f'{what}: {det}', case, signature=sig)
+        ctx.oracle(False, f'{what}: {det}', case)
     else:
         ctx.oracle(True, what, case)
-    c0, c1 = coords_of(x), coords_of(y)
+    if f != 'inf' and Fr(f).denominator != 1 and how != 'method_default':
+        # the statement bounds the gap by `factor` itself; the loop `while i < factor` drops up to ceil(factor)
+        strict = ctx.ask(f"c13.dscheck {math.floor(Fr(f))} {','.join(map(str, fix))} | {wire} | {G.wire_neuron(y)}")
+        ctx.oracle(strict == '1', f'{what}: {fc} consecutive nodes dropped between a kept node and its new parent, more than the factor {float(Fr(f))}', case,
+                   signature='downsample_neuron/non-integer-factor/gap-is-ceil(factor)')
+    c1 = coords_of(y)
     ctx.oracle(all(i in c0 and c0[i] == c1[i] for i in c1), f'{what}: a kept node changed id/coordinates/radius', case)
     w = ctx.ask('f.wf ' + G.wire_neuron(y))
     ctx.oracle(w == '1 1', f'{what}: result is not a well-formed, correctly labelled forest ({w})', case)
@@ -154,6 +213,21 @@ def case_ds(ctx, case, be=None):
     tf = [i for i in topo_fix(pm0) if i in pm1]
     ctx.oracle(all(cc0.get(i, 0) == cc1.get(i, 0) for i in tf) and all(cc1.get(i, 0) == 1 for i in pm1 if i not in tf or cc0.get(i, 0) == 1),
                f'{what}: number of children of a root/leaf/branch point changed (branching structure)', case)
+    # root paths inherited: the ancestors of a kept node in the result are its kept ancestors in the input, in order
+    def rp(pm, i):
+        out = []
+        while i >= 0 and len(out) <= len(pm) + 1:
+            out.append(i); i = pm.get(i, -1)
+        return out
+    ctx.oracle(all(rp(pm1, i) == [a for a in rp(pm0, i) if a in pm1] for i in pm1),
+               f'{what}: the root path of a kept node is not its old root path restricted to the kept nodes', case)
+    if how in ('func', 'method', 'list'):
+        ctx.oracle(parent_map(x) == pm0 and coords_of(x) == c0, f'{what}: the input neuron was modified although inplace=False', case)
+    # soma survives
+    if soma and how != 'simple':
+        s1 = [] if y.soma is None else [int(v) for v in np.atleast_1d(y.soma)]
+        ctx.oracle(sorted(s1) == sorted(soma) and all(s in pm1 for s in soma), f'{what}: soma {soma} → {s1} (must be kept as it is)', case)
+    return y
 
 
 def _pres_arg(case, pres):
@@ -248,9 +322,31 @@ def nearest_check(ctx, x, y, case, what, queries):
                    signature=case.get('_sig_nearest'))
 
 
-def case_rs(ctx, case, be=None):
-    x = make_neuron(case)
-    rows = case['rows']
+def rows_of(x):
+    nd = x.nodes
+    return [dict(id=int(i), parent=int(p), x=int(round(float(a))), y=int(round(float(b))), z=int(round(float(c))))
+            for i, p, a, b, c in zip(nd.node_id.values, nd.parent_id.values, nd.x.values, nd.y.values, nd.z.values)]
+
+
+def attach_payload(x, y):
+    """soma / connectors / tags of input and output as the three `A/B` sections of `c13.attach` (None when shapes differ)."""
+    def lst(v):
+        return '-' if v is None else ','.join(str(int(i)) for i in np.atleast_1d(v))
+    so = f'{lst(x.soma)}/{lst(y.soma)}'
+    ca = lst(x.connectors.node_id.values) if x.has_connectors else '-'
+    cb = lst(y.connectors.node_id.values) if y.has_connectors else '-'
+    def tg(t):
+        if not t:
+            return '-'
+        return ';'.join(f"{k}={','.join(str(int(i)) for i in t[k])}" for k in sorted(t))
+    ta = tg(x.tags) if x.has_tags else '-'
+    tb = tg(y.tags) if y.has_tags else '-'
+    return f'{so} | {ca}/{cb} | {ta}/{tb}'
+
+
+def case_rs(ctx, case, be=None, x=None):
+    x = make_neuron(case) if x is None else x
+    rows = case['rows'] if case.get('rows_from_x') is None else rows_of(x)
     res = case['res']
     method = case.get('method', 'linear')
     how = case.get('how', 'func')
@@ -265,20 +361,38 @@ def case_rs(ctx, case, be=None):
     if 'res_expect' in case:
         ctx.oracle(close(resf, Fr(case['res_expect'])), f"{what}: unit string maps to {resf}, expected {case['res_expect']}", case)
     kw = {}
+    mc = []
     if case.get('mapcol'):
         x.nodes['vcol'] = [float(Fr(case['mapcol'][str(r['id'])])) for r in rows]
-        kw['map_columns'] = ['vcol']
+        mc.append('vcol')
+    if case.get('catcol'):
+        x.nodes['ccol'] = [case['catcol'][str(r['id'])] for r in rows]
+        mc.append('ccol')
+    if mc:
+        kw['map_columns'] = mc[0] if (case.get('mapcol_as_str') and len(mc) == 1) else mc
+    if 'skip_errors' in case:
+        kw['skip_errors'] = case['skip_errors']
+    refused0 = refused_segments(x, resf, method)
     try:
         if how == 'method':
             y = x.resample(res, inplace=False)
         elif how == 'inplace':
             y = x.copy()
             navis.resample_skeleton(y, res, inplace=True, method=method, **kw)
+        elif how == 'list':
+            nl = navis.resample_skeleton(navis.NeuronList([x, x.copy()]), res, method=method, **kw)
+            ctx.oracle(isinstance(nl, navis.NeuronList) and len(nl) == 2, f'{what}: NeuronList in, {type(nl).__name__} out', case)
+            y = nl[0]
         else:
             y = navis.resample_skeleton(x, res, method=method, **kw)
     except Exception as e:
         sig = None
         pmx = pm0
+        if isinstance(e, ValueError) and case.get('skip_errors') is False and refused0:
+            # scipy cannot interpolate a segment with this method and the caller asked not to skip errors
+            ctx.count('rs_error', 'ValueError re-raised (skip_errors=False)')
+            ctx.oracle(parent_map(x) == pm0, f'{what}: the input was modified before the error was re-raised', case)
+            return
         if method != 'linear' and isinstance(e, KeyError) and interp1d_refuses(x, resf, method):
             sig = 'resample_skeleton/non-linear-method/interp1d-refuses-a-segment/KeyError'
         if isinstance(e, AttributeError) and 'to_nunmeric' in str(e):
@@ -293,7 +407,7 @@ def case_rs(ctx, case, be=None):
     out = ctx.ask(f"c13.resample {frs(Fr(resf))} | {G.wire_rows(rows)} | {rad}")
     meta, ents = parse_model(out)
     if meta.get('exact') != '1':
-        ctx.notes.append('generator produced a non-integer edge length; case skipped')
+        ctx.count('rs_skipped', 'non-integer edge length (exact model not applicable)')
         return
     pm1, c1 = parent_map(y), coords_of(y)
     ids0 = set(pm0)
@@ -301,6 +415,8 @@ def case_rs(ctx, case, be=None):
         sig = 'resample_skeleton/int32-ids-near-2**31/new-ids-wrap-negative' if str(x.nodes.node_id.dtype) == 'int32' else None
         ctx.oracle(False, f'{what}: result contains negative node ids {sorted(i for i in pm1 if i < 0)[:4]} (fresh ids wrapped around the id dtype)', case, signature=sig)
         return
+    if how in ('func', 'method', 'list'):
+        ctx.oracle(parent_map(x) == pm0 and coords_of(x) == c0, f'{what}: the input neuron was modified although inplace=False', case)
     # -- anchors keep id and coordinates ---------------------------------------------------------
     anchors = topo_fix(pm0)
     if method == 'linear':
@@ -315,10 +431,14 @@ def case_rs(ctx, case, be=None):
     ctx.oracle(not bool(nd[['node_id', 'parent_id', 'x', 'y', 'z']].isnull().any().any()), f'{what}: NaN in the node table', case)
     w = ctx.ask('f.wf ' + G.wire_neuron(y))
     ctx.oracle(w == '1 1', f'{what}: result is not a well-formed, correctly labelled forest ({w})', case)
-    linear = method == 'linear'
-    refused = refused_segments(x, resf, method)
+    if case.get('expect_contracted'):
+        # no segment is as long as the target: only roots, leafs and branch points remain — the skeleton contracted as by factor inf
+        ctx.corr(G.topo_neuron(y), ctx.ask(f"f.ops ds=inf= | {G.wire_neuron(x)}"), f'{what}: resolution above every segment length vs the contracted skeleton', case)
+    linear = method in ('linear', 'slinear')      # a first-order spline is the same piecewise linear interpolation
+    refused = refused0
     total_interior = 0
     seen_new = set()
+    chains = {}
     for e in ents:
         seg = seg_path(pm0, e['first'], e['last'])
         poly = [c0[i] for i in seg]
@@ -339,6 +459,7 @@ def case_rs(ctx, case, be=None):
             ctx.oracle(False, f"{what}: segment {e['first']}→{e['last']}: walking up from the first anchor does not reach the last anchor", case)
             return
         inner = ch[1:-1]
+        chains[e['first']] = (seg, ch, k, kept_original)
         ctx.count('rs_seg', 'collapsed' if e['collapsed'] else ('k=0' if k == 0 else 'k>0'))
         if e['total'] == Fr(resf):
             ctx.count('rs_tie', 'total==res')
@@ -398,6 +519,8 @@ def case_rs(ctx, case, be=None):
         ctx.oracle(vals is not None, f'{what}: mapped column is missing from the result', case)
         if vals is not None:
             for e in ents2:
+                if e['first'] in refused:
+                    continue
                 seg = seg_path(pm0, e['first'], e['last'])
                 cum = [0]
                 for a, b in zip(seg[:-1], seg[1:]):
@@ -410,6 +533,36 @@ def case_rs(ctx, case, be=None):
                     if Fr(j) * e['total'] / (e['k'] + 1) in dup:
                         continue
                     if not ctx.corr(close(vals[i], e['pts'][j][3]), True, f'{what}: mapped column at node {i} = {vals[i]} vs model {float(e["pts"][j][3])}', case):
+                        return
+    # categorical mapped column: scipy `kind='nearest'` over the arc length — the value of a nearest original node
+    if case.get('catcol'):
+        ok = 'ccol' in nd.columns
+        ctx.oracle(ok, f'{what}: categorical mapped column is missing from the result', case)
+        if ok:
+            got = {int(i): v for i, v in zip(nd.node_id.values, nd['ccol'].values)}
+            cat0 = {int(k): v for k, v in case['catcol'].items()}
+            for r_ in (i for i, p_ in pm0.items() if p_ < 0):
+                ctx.oracle(got.get(r_) == cat0[r_], f'{what}: categorical value of root {r_} changed', case)
+            for first, (seg, ch, k, kept) in chains.items():
+                if kept:
+                    ctx.oracle(all(got.get(i) == cat0[i] for i in seg[:-1]), f'{what}: categorical values of the kept segment {seg} changed', case)
+                    continue
+                cum = [0]
+                for a, b in zip(seg[:-1], seg[1:]):
+                    cum.append(cum[-1] + edge_len([int(v) for v in c0[a][:3]], [int(v) for v in c0[b][:3]]))
+                if len(set(cum)) != len(cum):
+                    ctx.count('rs_cat', 'skipped-coincident-nodes')
+                    continue
+                if len(ch) == 2 and k == 0:
+                    adm = [[0]]          # collapsed (or a single sample): the first node's own value
+                else:
+                    ss = ' '.join(frs(Fr(j) * cum[-1] / (k + 1)) for j in range(len(ch) - 1))
+                    adm = [[int(v) for v in t_.split(',')] for t_ in ctx.ask(f"c13.nearestidx {','.join(map(str, cum))} | {ss}").split(' ')]
+                for j, i in enumerate(ch[:-1]):
+                    want = sorted({cat0[seg[a]] for a in adm[j] if a < len(seg)})
+                    ctx.count('rs_cat', 'tie' if len(adm[j]) > 1 else 'compared')
+                    if not ctx.oracle(got.get(i) in want, f"{what}: categorical column at node {i} (sample {j} of segment {seg[0]}→{seg[-1]}) is {got.get(i)!r}, "
+                                      f"the nearest original node(s) carry {want}", case):
                         return
     # -- soma / connectors / tags ------------------------------------------------------------------
     queries = []
@@ -438,7 +591,25 @@ def case_rs(ctx, case, be=None):
         if ok:
             for k in t0:
                 queries += [(f'tag {k}', int(a), int(b)) for a, b in zip(t0[k], t1[k])]
-    nearest_check(ctx, x, y, case, what, queries)
+    # all three re-attachments at once through the Lean checker `attachOKB` (exact) / its tolerant form, and the model
+    shapes_ok = not any(f_['kind'] == 'oracle' and f_['case'] is case and 'changed' in f_['what'] for f_ in ctx.failures[-3:])
+    if queries and shapes_ok and (soma0 is None or y.soma is not None):
+        olds = ' '.join(f"{i}:" + ','.join(frs(v) for v in c[:3]) for i, c in c0.items())
+        news = ' '.join(f"{i}:" + ','.join(frs(v) for v in c[:3]) for i, c in c1.items())
+        out = ctx.ask(f'c13.attach {frs(TOL)} | {olds} | {news} | {attach_payload(x, y)}')
+        r_ = dict(t_.split('=') for t_ in out.split())
+        ctx.count('rs_attach_check', 'exact' if r_.get('exact') == '1' else ('tolerant' if r_.get('tol') == '1' else 'FAILED'))
+        if r_.get('tol') != '1':
+            nearest_check(ctx, x, y, case, what, queries)
+            ctx.oracle(False, f'{what}: soma / connectors / tags are not all re-attached to a nearest node of the resampled skeleton ({out})', case,
+                       signature=case.get('_sig_nearest'))
+        else:
+            ctx.oracle(True, what, case)
+            if r_.get('ties') == '0':
+                ctx.corr(r_.get('model'), '1', f'{what}: re-attached soma/connectors/tags vs the Lean model `reattachG` (no ties)', case)
+                ctx.count('rs_attach_model', 'compared')
+            else:
+                ctx.count('rs_attach_model', 'tie: any nearest node accepted')
     ctx.count('rs_attach', len(queries))
     return y
 
@@ -575,6 +746,162 @@ def gen_cases(ctx, nf=None):
                 yield ('rs', dict(rows=rows2, res=r.choice([1, 2, 3]), radii={'0': '2000'}, meta=meta2))
 
 
+def slab_ids(rows):
+    pm = {rw['id']: rw['parent'] for rw in rows}
+    fx = set(topo_fix(pm))
+    return [i for i in pm if i not in fx]
+
+
+def uniform_chain(r, n, step, labeling='seq', branches=0):
+    """chain along x with constant edge length `step` (+ optional side twigs of the same step along y)."""
+    ids = list(range(1, n + branches + 1))
+    if labeling == 'zero':
+        ids = list(range(0, n + branches)); r.shuffle(ids)
+    elif labeling == 'sparse':
+        ids = r.sample(range(1, 40 * (n + branches)), n + branches)
+    rows = [dict(id=ids[i], parent=(ids[i - 1] if i else -1), x=step * i, y=0, z=0) for i in range(n)]
+    for b in range(branches):
+        at = r.randrange(1, n - 1)
+        rows.append(dict(id=ids[n + b], parent=ids[at], x=step * at, y=step * (1 + b), z=0))
+    return rows
+
+
+def scale_rows(rows, m):
+    return [dict(rw, x=rw['x'] * m, y=rw['y'] * m, z=rw['z'] * m) for rw in rows]
+
+
+def gen_targeted(ctx):
+    """Second-pass streams: inputs the random stream reaches rarely or never."""
+    r = ctx.rng
+    n = ctx.budget(36, 420)
+    # ---- (0) one long unbranched stretch (> 1000 slabs): `x.simple` must still reduce it to its two ends (factor inf, not "large")
+    rows = uniform_chain(r, 1102, 1, labeling='seq', branches=0)
+    meta = dict(shape='long-chain', n=len(rows), labeling='seq', order='parent_first')
+    yield ('ds', dict(rows=rows, f='inf', pres=None, how='simple', meta=meta, soma_none=True))
+    yield ('ds', dict(rows=rows, f=1000, pres=None, meta=meta, soma_none=True))
+    for k in range(n):
+        # ---- (a) soma / preserved node on a SLAB node, factors out of phase with its position; node id 0 as slab
+        rows, meta = G.rand_forest(r, n=r.randint(7, 18), shape=r.choice(['chain', 'caterpillar', 'broom', 'random', 'forest']),
+                                   labeling=r.choice(['seq', 'zero', 'zero', 'sparse', 'shuffled', 'reversed']))
+        sl = slab_ids(rows)
+        ids = [rw['id'] for rw in rows]
+        if sl:
+            tgt = 0 if (0 in sl and r.random() < 0.6) else r.choice(sl)
+            for f in r.sample([2, 3, 4, 5, 'inf', '5/2', '7/2'], 3):
+                d = dict(rows=rows, f=f, pres=r.choice([None, [], [r.choice(ids)]]), meta=meta, how=r.choice(['func', 'method', 'inplace']), soma=tgt)
+                yield ('ds', d)
+            yield ('ds', dict(rows=rows, f=r.choice([3, 4, 'inf']), pres=[tgt], presform=r.choice(['list', 'set', 'array']), meta=meta, soma_none=True))
+        if 0 in sl:
+            for f in (2, 3, 'inf'):
+                yield ('ds', dict(rows=rows, f=f, pres=None, meta=meta, soma_none=True))
+        # ---- (b) factor forms: float, numpy scalars, <= 1 (ValueError), the method's default
+        rows, meta = G.rand_forest(r, nmax=22, allow_zero_edges=(k % 3 == 0))
+        ids = [rw['id'] for rw in rows]
+        f, ft = r.choice([('3/2', 'float'), ('5/2', 'float'), ('9/4', 'float'), (3, 'float'), (2, 'np.int64'), ('5/2', 'np.float32'),
+                          (1, 'auto'), ('1/2', 'float'), (2, 'auto'), (7, 'auto'), ('inf', 'auto')])
+        yield ('ds', dict(rows=rows, f=f, ftype=ft, pres=r.choice([None, [i for i in ids if r.random() < 0.2]]), meta=meta,
+                          **({'soma': r.choice(ids)} if r.random() < 0.4 else {'soma_none': True})))
+        if k % 4 == 0:
+            yield ('ds', dict(rows=rows, f=5, pres=None, how='method_default', meta=meta, soma_none=True))
+        # ---- (c) preserved ids that are not in the table (and negative ones), as list / set / array
+        junk = [max(ids) + 17, 10 ** 9 + 7, -5]
+        pres = [i for i in ids if r.random() < 0.25] + r.sample(junk, r.randint(1, 3))
+        yield ('ds', dict(rows=rows, f=r.choice([2, 3, 4, 'inf']), pres=pres, presform=r.choice(['list', 'set', 'array']), meta=meta, soma_none=True))
+        # ---- (d) NeuronList inputs, array-valued soma (two radius-detected somas)
+        if k % 3 == 0:
+            rows2, _ = G.rand_forest(r, nmax=12)
+            yield ('ds', dict(rows=rows, rows2=rows2, f=r.choice([2, 3, 'inf']), pres=r.choice([None, [ids[0]]]), how='list', meta=meta, soma_none=True))
+            yield ('rs', dict(rows=rows, res=pick_res(r, rows), how='list', soma_none=True, meta=meta, radii=rand_radii(r, rows)))
+        if k % 4 == 1 and len(ids) >= 4:
+            big = r.sample(ids, 2)
+            yield ('ds', dict(rows=rows, f=r.choice([2, 3, 5, 'inf']), pres=None, meta=meta,
+                              radii={str(i): ('3000' if i in big else '1/64') for i in ids}))
+        # ---- (e) exact ties of the re-attachment: old slab nodes half-way between two new nodes, attachments on them
+        step = r.choice([2, 3, 4])
+        rows = uniform_chain(r, r.randint(5, 11), step, labeling=r.choice(['seq', 'zero', 'sparse']), branches=r.randint(0, 2))
+        ids = [rw['id'] for rw in rows]
+        sl = slab_ids(rows) or ids
+        rs = dict(rows=rows, res=2 * step * r.choice([1, 1, 2]), meta=dict(shape='uniform-chain', n=len(rows), labeling='mixed', order='parent_first'),
+                  soma=r.choice(sl), connectors=[r.choice(sl) for _ in range(r.randint(1, 4))],
+                  tags={'t1': [r.choice(sl) for _ in range(r.randint(1, 3))], 't2': [r.choice(ids)]}, radii=rand_radii(r, rows))
+        yield ('rs', rs)
+        # ---- (f) soma + connectors + tags together (every subset of the three), categorical + numeric mapped columns
+        rows, meta = G.rand_forest(r, nmax=20, allow_zero_edges=(k % 5 == 0))
+        ids = [rw['id'] for rw in rows]
+        combo = k % 8
+        rs = dict(rows=rows, res=pick_res(r, rows), radii=rand_radii(r, rows), meta=meta, how=r.choice(['func', 'inplace']))
+        if combo & 1:
+            rs['soma'] = r.choice(ids)
+        else:
+            rs['soma_none'] = True
+        if combo & 2:
+            rs['connectors'] = [r.choice(ids) for _ in range(r.randint(1, 5))]
+        if combo & 4:
+            rs['tags'] = {'x': [r.choice(ids) for _ in range(r.randint(1, 4))], 'y': [r.choice(ids)]}
+        if r.random() < 0.6:
+            rs['catcol'] = {str(i): r.choice(['ax', 'de', 'so', 'cb']) for i in ids}
+        if r.random() < 0.4:
+            rs['mapcol'] = {str(i): f'{r.randint(-32, 32)}/8' for i in ids}
+            rs['mapcol_as_str'] = r.random() < 0.5
+        yield ('rs', rs)
+        # ---- (g) every non-linear method, coincident nodes, skip_errors both ways, short segments (cubic needs > 3 nodes)
+        rows, meta = G.rand_forest(r, nmax=18, allow_zero_edges=(k % 2 == 0), shape=r.choice(['chain', 'caterpillar', 'random', 'broom', 'forest']))
+        for method in r.sample(['slinear', 'quadratic', 'cubic', 'nearest', 'zero', 'previous', 'next'], 3):
+            yield ('rs', dict(rows=rows, res=r.choice([1, 2, 3, 5]), method=method, skip_errors=r.choice([True, True, False]), soma_none=True, meta=meta,
+                              **({'connectors': [r.choice([rw['id'] for rw in rows])]} if r.random() < 0.3 else {})))
+        # ---- (h) resolution larger than every segment: only roots / leafs / branch points remain (= downsample by inf)
+        if k % 3 == 1:
+            yield ('rs', dict(rows=rows, res=10 ** 6, soma_none=True, meta=meta, expect_contracted=True,
+                              **({'connectors': [r.choice([rw['id'] for rw in rows])]} if r.random() < 0.5 else {})))
+        # ---- (i) unit strings on neurons in nm / 8 nm / µm ('1 micron' = 1000 / 125 / 1 units)
+        if k % 3 == 2:
+            rows, meta = G.rand_forest(r, nmax=12)
+            units, m, rstr, expect = r.choice([('1 nm', 250, '1 micron', 1000), ('8 nm', 125, '1 micron', 125), ('8 nm', 125, '2 um', 250),
+                                               ('1 um', 1, '1 micron', 1), ('1 um', 1, '2 micron', 2),
+                                               ('4 nm', 1, '8 nm', 2), ('1 nm', 1, '3 nm', 3)])
+            yield ('rs', dict(rows=scale_rows(rows, m), res=rstr, units=units, res_expect=str(expect), soma_none=True, meta=meta, radii=rand_radii(r, rows)))
+        # ---- (j) two-step histories on the SAME object (warm caches, non-contiguous ids after the first step)
+        if k % 2 == 0:
+            rows, meta = G.rand_forest(r, n=r.randint(6, 16), shape=r.choice(['chain', 'caterpillar', 'random', 'broot']), labeling=r.choice(['seq', 'sparse', 'zero']))
+            yield ('hist', dict(rows=rows, meta=meta, steps=[r.choice([('ds', r.choice([2, 3, 'inf'])), ('rs', r.choice([2, 3, 5]))]) for _ in range(r.randint(2, 3))],
+                                soma=r.choice([None, r.choice([rw['id'] for rw in rows])])))
+        # ---- (k) single-node and isolated-node skeletons
+        if k % 6 == 0:
+            rows, meta = G.rand_forest(r, n=r.choice([1, 1, 2, 3]), shape=r.choice(['single', 'isolated']), labeling=r.choice(['seq', 'zero', 'sparse']))
+            yield ('ds', dict(rows=rows, f=r.choice([2, 'inf']), pres=None, meta=meta, soma_none=True))
+            yield ('rs', dict(rows=rows, res=r.choice([1, 3]), soma_none=True, meta=meta))
+            yield ('rs', dict(rows=rows, res=2, soma=rows[0]['id'], connectors=[rows[-1]['id']], meta=meta))
+
+
+def case_hist(ctx, case, be=None):
+    """downsample / resample steps applied in place to ONE neuron object; after every step the table is compared with the
+    model run on the table the step started from (ids after a resampling step are no longer contiguous)."""
+    x = make_neuron(dict(case, soma=case.get('soma'), soma_none=case.get('soma') is None))
+    for n_, (op, arg) in enumerate(case['steps']):
+        rows = rows_of(x)
+        if len(rows) < 1:
+            return
+        sub = dict(rows=rows, meta=case['meta'], rows_from_x=True)
+        if op == 'ds':
+            sub.update(f=arg, pres=None, how='inplace_same')
+            y = case_ds(ctx, sub, be, x=x)
+            if y is None:
+                return
+            x = y
+        else:
+            # coordinates after an earlier resampling step are no longer integers: the exact model cannot follow, stop
+            nd = x.nodes
+            if not all(float(v).is_integer() for col in ('x', 'y', 'z') for v in nd[col].values):
+                ctx.count('hist', 'stopped: non-integer coordinates')
+                return
+            sub.update(res=arg, radii={str(int(i)): frs(Fr(float(v))) for i, v in zip(nd.node_id.values, nd.radius.values)}, how='inplace')
+            y = case_rs(ctx, sub, be, x=x)
+            if y is None:
+                return
+            x = y
+        ctx.count('hist', f'step{n_}:{op}')
+
+
 def small_scope(ctx):
     """thorough tier: every rooted forest shape with ≤ 5 nodes (parent index < own index) × factors × soma."""
     import itertools
@@ -593,20 +920,35 @@ def small_scope(ctx):
             for f in (2, 3, 'inf'):
                 yield ('ds', dict(rows=rows, f=f, pres=None, meta=meta))
             yield ('ds', dict(rows=rows, f=2, pres=[n], meta=meta, soma=1))
+            if n <= 4:
+                for so in range(1, n + 1):
+                    for f in (2, 3, 'inf', '5/2'):
+                        yield ('ds', dict(rows=rows, f=f, pres=None, meta=meta, soma=so))
             for res in (2, 3, 6):
                 yield ('rs', dict(rows=rows, res=res, soma_none=True, meta=meta))
+            if n <= 4:
+                for so in range(1, n + 1):
+                    yield ('rs', dict(rows=rows, res=3, soma=so, connectors=[so, n], tags={'a': [so], 'b': [1]}, meta=meta))
 
 
-RUNNERS = {'ds': case_ds, 'rs': case_rs, 'somalist': case_soma_list}
+RUNNERS = {'ds': case_ds, 'rs': case_rs, 'somalist': case_soma_list, 'hist': case_hist}
 
 
 def run(ctx, be=None):
     ctx.extra['rule'] = ('forests from harness/gen.py (integer coordinates, integer edge lengths, zero-length edges in every 4th case); a case = '
                          '(forest, downsample factor/preserve set/soma) or (forest, resolution, radii, soma/connectors/tags, method); resolutions '
-                         'are drawn so that exact ties total == res and total/res = m + 1/2 occur; non-trivial when ≥ 3 nodes')
-    ctx.extra['assumptions'] = ['scipy interp1d(kind=linear) = np.interp; cKDTree nearest neighbour is exact up to the tolerance 1e-9; '
-                                'numpy round is half-to-even']
-    streams = [gen_cases(ctx)]
+                         'are drawn so that exact ties total == res and total/res = m + 1/2 occur; targeted second-pass stream: soma / preserved node / '
+                         'node id 0 on slab nodes with out-of-phase factors, float / numpy / <= 1 / default factors, preserved ids not in the table, '
+                         'NeuronLists, array somas, exact re-attachment ties (old node half-way between two new nodes), every subset of '
+                         '{soma, connectors, tags}, numeric + categorical mapped columns, 7 non-linear methods × skip_errors × coincident nodes, '
+                         'resolution above every segment length, unit strings on nm / 8 nm / µm neurons, 2–3-step in-place histories, single / isolated '
+                         'nodes; non-trivial when ≥ 3 nodes')
+    ctx.extra['assumptions'] = ['scipy interp1d(kind=linear / slinear) = np.interp; interp1d(kind=nearest) = searchsorted over the knot midpoints, '
+                                'side=left; cKDTree nearest neighbour is exact up to the tolerance 1e-9; numpy round is half-to-even',
+                                'the C13 statement covers skeletons: downsample_neuron on Dotprops / MeshNeuron / VoxelNeuron is only pinned by the '
+                                'dispatch fact (Props.C13.gen_downsample_entry); resample_along_axis is outside the statement (and raises for every '
+                                'input under pandas 3)']
+    streams = [gen_cases(ctx), gen_targeted(ctx)]
     if not ctx.quick() and not ctx.search_mode:
         streams.append(small_scope(ctx))
     for st in streams:
